@@ -317,7 +317,45 @@ def _thread_pool_executor(I, args, kw):
     return B.VExt("ThreadPoolExecutor", {"submit": VFunc("builtin", "submit", impl=_tpe_submit), "shutdown": noop})
 
 
+def _hashlib_new(algo):
+    """Trusted model of hashlib.<algo>([data]): a hash object whose `hexdigest()` / `digest()` is an *uninterpreted
+    deterministic function* (`uf_<algo>_hex`, spec name `<algo>_hex`) of the concatenation of everything passed to the constructor and to
+    `update()` so far (bytes are modelled as the text they encode, see str.encode).  Nothing else is assumed (no
+    collision freedom, no length): equal inputs give equal digests, and the digest depends on nothing but the bytes fed
+    in.  `update` accepts bytes only (a str argument raises TypeError as in CPython is not modelled: every caller in
+    /repo passes `.encode(...)` results or bytes literals)."""
+    def f(I, args, kw):
+        state = {"buf": z3.StringVal("")}
+        # same symbol as the spec-level `R.uf("<algo>_hex", ["str"], "str")` (verifier.spec_name prefixes "uf_")
+        hexfn = z3.Function("uf_%s_hex" % algo, z3.StringSort(), z3.StringSort())
+        rawfn = z3.Function("uf_%s_raw" % algo, z3.StringSort(), z3.StringSort())
+
+        def feed(v):
+            v = I.force(v) if not I.spec else v
+            if not isinstance(v, VStr):
+                raise Unsupported("hashlib update with a non-bytes value (%s)" % type(v).__name__)
+            state["buf"] = z3.simplify(z3.Concat(state["buf"], v.e))
+
+        def update(I2, a, k):
+            feed(a[0])
+            return VNone()
+
+        def hexdigest(I2, a, k):
+            return VStr(hexfn(state["buf"]))
+
+        def digest(I2, a, k):
+            return VStr(rawfn(state["buf"]))
+        if args:
+            feed(args[0])
+        I.ver.note_assumption("hashlib.%s is an uninterpreted deterministic function of the bytes fed to it" % algo)
+        return VObj("hashlib.%s" % algo, {"update": VFunc("builtin", "update", impl=update),
+                                           "hexdigest": VFunc("builtin", "hexdigest", impl=hexdigest),
+                                           "digest": VFunc("builtin", "digest", impl=digest)}, None)
+    return f
+
+
 TABLE = {
+    ("hashlib", "sha256"): _hashlib_new("sha256"),
     ("concurrent", "ThreadPoolExecutor"): _thread_pool_executor,
     ("os", "makedirs"): _may_raise_oserror("makedirs"),
     ("os.path", "basename"): _basename,
